@@ -148,9 +148,9 @@ TMainWoke ==
    logged its final release, the caller may still return the first task failure instead.          *)
 CycleInFlight == \E f \in Files : out[f] = "cycle" /\ pc[f] = "fin"
 TReturn == /\ IsEvent("Return")
-           /\ \/ mres = Ev.err
-              \/ CycleInFlight /\ mres = "cycle" /\ Ev.err = FirstFailure
            /\ MainReturn
+           /\ \/ mres' = Ev.err
+              \/ CycleInFlight /\ mres' = "cycle" /\ Ev.err = FirstFailure
 
 TCancel == IsEvent("Cancel") /\ ExternalCancel
 
